@@ -33,6 +33,10 @@ class ToolError(Exception):
     pass
 
 
+import threading
+CBMC_SEM = threading.BoundedSemaphore(JOBS)
+
+
 def sh(cmd, timeout=None, cwd=None, mem_gb=None, env=None):
     """run a command, return (rc, stdout, stderr, wall)"""
     t0 = time.time()
@@ -56,7 +60,7 @@ def sh(cmd, timeout=None, cwd=None, mem_gb=None, env=None):
 # ------------------------------------------------------------------ configuration headers
 def cfg_inputs_hash():
     h = hashlib.sha256()
-    h.update(REPO.encode())
+    h.update(b"v1")
     files = ["CMakeLists.txt", "cmake_coap_config.h.in", "cmake_coap_defines.h.in", "configure.ac"]
     cm = os.path.join(REPO, "cmake")
     if os.path.isdir(cm):
@@ -336,8 +340,78 @@ def run_cbmc(u, igb, uw, extra=(), timeout=None, want_trace=False):
         cmd += ["--external-sat-solver", "kissat"]
     if want_trace:
         cmd += ["--trace"]
-    rc, out, err, wall = sh(cmd, timeout=timeout or u["timeout"], mem_gb=u["mem_gb"])
+    with CBMC_SEM:
+        rc, out, err, wall = sh(cmd, timeout=timeout or u["timeout"], mem_gb=u["mem_gb"])
     return cmd, rc, out, err, wall
+
+
+def list_properties(u, igb, uw):
+    cmd = ["cbmc", igb, "--json-ui", "--drop-unused-functions", "--show-properties"] + CHECK_FLAGS + list(u["flags"]) + uw
+    rc, out, err, wall = sh(cmd, timeout=300)
+    try:
+        for el in json.loads(out):
+            if "properties" in el:
+                return [p["name"] for p in el["properties"]]
+    except Exception:
+        pass
+    raise ToolError("cannot list properties of %s: %s" % (u["unit"], (err or out)[-500:]))
+
+
+def run_cbmc_chunked(u, igb, uw, nchunks):
+    """Split the obligations of one instrumented binary into nchunks groups (round-robin over the property
+    list) and decide each group by its own cbmc process (cone-of-influence slicing makes the groups much
+    cheaper than one all-properties query).  Returns (cmd_text, rc, merged_json_text, err, wall)."""
+    props = list_properties(u, igb, uw)
+    chunks = [props[k::nchunks] for k in range(nchunks)]
+    chunks = [c for c in chunks if c]
+    t0 = time.time()
+
+    def one(c):
+        extra = []
+        for pn in c:
+            extra += ["--property", pn]
+        return run_cbmc(u, igb, uw, extra=extra)
+    with ThreadPoolExecutor(max_workers=len(chunks)) as ex:
+        outs = list(ex.map(one, chunks))
+    merged = []
+    rc_all = 0
+    errs = ""
+    for (cmd, rc, out, err, wall) in outs:
+        if rc == -9:
+            return cmd, -9, "", err, time.time() - t0
+        try:
+            data = json.loads(out)
+        except Exception:
+            return cmd, rc, out, err, time.time() - t0
+        res = None
+        for el in data:
+            if "result" in el:
+                res = el["result"]
+            elif "messageText" in el:
+                merged.append(el)
+        if res is None:
+            return cmd, rc, out, err, time.time() - t0
+        merged.append({"result_part": res})
+        errs += err
+    allres = []
+    for el in merged:
+        if "result_part" in el:
+            allres += el["result_part"]
+    final = [el for el in merged if "result_part" not in el] + [{"result": allres}]
+    cmdtxt = outs[0][0][:]
+    # describe the command without the long property list
+    short = []
+    skip = False
+    for tok in cmdtxt:
+        if skip:
+            skip = False
+            continue
+        if tok == "--property":
+            skip = True
+            continue
+        short.append(tok)
+    short += ["<obligations split round-robin into %d cbmc processes via --property>" % len(chunks)]
+    return short, 0, json.dumps(final), errs, time.time() - t0
 
 
 def parse_cbmc_json(out):
@@ -375,7 +449,13 @@ def run_unit(name, tier, workdir, cfg, extra_defs=(), tag="p"):
         ur.cmds = cmds
         ur.binary = igb
         ur.uw = uw
-        cmd, rc, out, err, wall = run_cbmc(u, igb, uw)
+        nchunks = u.get("chunks", 1)
+        if isinstance(nchunks, dict):
+            nchunks = nchunks.get(tier, 1)
+        if nchunks > 1:
+            cmd, rc, out, err, wall = run_cbmc_chunked(u, igb, uw, nchunks)
+        else:
+            cmd, rc, out, err, wall = run_cbmc(u, igb, uw)
         ur.cmds.append(" ".join(cmd))
         ur.backend = "kissat (external)" if u["solver"] == "kissat" else "MiniSat 2.2.1 (cbmc built-in)"
         if rc == -9:
@@ -424,7 +504,13 @@ def run_unit(name, tier, workdir, cfg, extra_defs=(), tag="p"):
             ur.reason = "loop contract not applied (no loop_invariant_step obligation)"
             ur.wall = time.time() - t0
             return ur
-        ur.status = "failed" if ur.failed() else "ok"
+        unknown = [r for r in ur.results if r["cls"] in ("contract", "safety", "spec") and r["status"] not in ("SUCCESS", "FAILURE")]
+        if ur.failed():
+            ur.status = "failed"
+        elif unknown:
+            ur.reason = "%d obligations left UNKNOWN by cbmc without any failure (first: %s)" % (len(unknown), unknown[0]["id"])
+        else:
+            ur.status = "ok"
     except ToolError as e:
         ur.reason = str(e)
     ur.wall = time.time() - t0
@@ -643,7 +729,7 @@ def check_property(pid, tier, seed=0):
     runs = {}
     try:
         cfg = get_cfg(workdir)
-        with ThreadPoolExecutor(max_workers=JOBS) as ex:
+        with ThreadPoolExecutor(max_workers=max(JOBS, 4) * 2) as ex:
             futs = {n: ex.submit(run_unit, n, tier, workdir, cfg) for n in units}
             for n in units:
                 runs[n] = futs[n].result()
